@@ -92,6 +92,7 @@ SessionVerdict(x) ==
         st == CASE x.clause = "C01.sym"   -> C01Sym(n, c[1], c[2])
                 [] x.clause = "C02.canon" -> C02Canon(n, c[1], c[2], c[3], c[4])
                 [] x.clause = "C02.self"  -> C02Self(n, c[1], c[2], c[3])
+                [] x.clause = "C02.stable" -> C02Stable(c[1], c[2], c[3], c[4])
                 [] x.clause = "C05.exact" -> C05Exact(n, c[1], c[2])
                 [] x.clause = "C05.total" -> C05Total(n, c[1])
                 [] x.clause = "C06.prefix" -> C06Prefix(n, c[1], c[2])
